@@ -92,6 +92,7 @@ func LongMeta(r *Rand) string {
 type Policy struct {
 	HdrExtra  int  // header longer than the minimum by this many 32-byte units
 	HdrJunk   bool // non-zero bytes after the NUL that ends the metadata
+	ExactLim  bool // allocation limit = exact end of the last record's name (not rounded to 32)
 	Tag       int  // -1: random per record, else the tag byte (0 or 0xff)
 	Gaps      bool // leave 0..3 unused units before records
 	TailLink  bool // link new records at the tail of their chain
@@ -155,6 +156,9 @@ func Encode(meta string, cs []KV, p Policy, r *Rand) []byte {
 		offs[i] = s
 		cur = s + n
 		limit = cur
+		if p.ExactLim {
+			limit = s + 16 + len(cs[i].Name)
+		}
 	}
 	// write records and link
 	for i, c := range cs {
@@ -190,7 +194,7 @@ func Encode(meta string, cs []KV, p Policy, r *Rand) []byte {
 			binary.LittleEndian.PutUint32(buf[s+12:], 0)
 		}
 	}
-	if p.SlackLim && limit > 0 {
+	if p.SlackLim && limit > 0 && !p.ExactLim {
 		limit += Unit * r.Intn(3)
 		grow(limit)
 	}
@@ -205,6 +209,7 @@ func RandPolicy(r *Rand) Policy {
 	return Policy{
 		HdrExtra:  Pick(r, []int{0, 0, 0, 1, 2, 5, 17, 100, 490, 511}),
 		HdrJunk:   r.Chance(30),
+		ExactLim:  r.Chance(50),
 		Tag:       Pick(r, []int{0, 0xff, -1}),
 		Gaps:      r.Bool(),
 		TailLink:  r.Bool(),
@@ -222,7 +227,7 @@ func (p Policy) String() string {
 		}
 		return '0'
 	}
-	return fmt.Sprintf("t%d%c%c%c%c%c%c%c-x%d", p.Tag, b(p.Gaps), b(p.TailLink), b(p.Shuffle), b(p.Junk), b(p.SlackLim), b(p.ExtraPage), b(p.HdrJunk), p.HdrExtra)
+	return fmt.Sprintf("t%d%c%c%c%c%c%c%c-x%d", p.Tag, b(p.Gaps), b(p.TailLink), b(p.Shuffle), b(p.Junk), b(p.SlackLim), b(p.ExtraPage), b(p.HdrJunk), p.HdrExtra) + map[bool]string{true: "-exactlimit", false: ""}[p.ExactLim]
 }
 
 // ---- names and metadata
